@@ -667,6 +667,10 @@ FUNCTIONS = [
     ("syncParseData", "sync", "SyncTrack._parse_data_from_chart_lines"),
     ("globalEventsParseData", "globalevents", "GlobalEventsTrack._parse_data_from_chart_lines"),
     ("buildEventsFromData", "track", "build_events_from_data"),
+    ("specialFromParsedData", "instrument", "SpecialEvent.from_parsed_data"),
+    ("trackEventFromParsedData", "instrument", "TrackEvent.from_parsed_data"),
+    ("globalEventFromParsedData", "globalevents", "GlobalEvent.from_parsed_data"),
+    ("anchorFromParsedData", "sync", "AnchorEvent.from_parsed_data"),
 ]
 
 
